@@ -29,6 +29,14 @@ CFG = {
   'trusted': [GO_EXT, PRIMS, MAC_ASSUMP],
   'assumptions': [MAC_ASSUMP],
  },
+ 'C08': {
+  'level': 'Theorems: DES3 random-to-key yields 24 bytes with odd parity in every byte (all 256 byte values); UTF-16LE conversion handles every code point incl. supplementary planes; a less specific PA-data hint never overrides a more specific one and the derived key is independent of the order of the hints (all permutations, by commutation of the per-hint step); every key of the length gokrb5 generates is accepted by encryption for all six etypes. string-to-key, DK, KDF-HMAC-SHA2, n-fold and random-to-key are computed by the Coq model (written from the RFCs) and compared with gokrb5 on every run.',
+  'note': 'Partial: n-fold is the RFC definition in Z arithmetic validated differentially and by RFC vectors, not proved equal to the bit-serial Go code; PBKDF2 iteration counts above 300 are covered by one default-count case (4096) because the extracted SHA is slow. n-fold of the empty string is undefined (gokrb5 divides by zero for des3 with empty password and salt): excluded. Order-independence is proved for hints naming the requested etype.',
+  'rule': 'every etype x 12 passwords (empty, ASCII, Latin-1, Cyrillic, CJK, supplementary-plane, >64 bytes) x 5 salts x iteration counts {1,2,3,5,16,100} (+30 random <=300 in thorough, SHA-2 capped) + malformed s2kparams + default count; n-fold for input lengths 1..64 x sizes {64,128,168,192,256}; DeriveKey with constants of length 1..16; DES3 random-to-key incl. inputs that stretch to each weak key; GetKeyFromPassword under every subset and permutation of PA-PW-SALT / ETYPE-INFO / ETYPE-INFO2 with differing salts (+ unrelated entries, empty sequences); generated keys and subkeys used for an encrypt/decrypt round trip.',
+  'trusted': [GO_EXT, PRIMS, 'gofork asn1 decoding of ETYPE-INFO(2) (external; the model starts from the decoded hints)'],
+  'assumptions': ['hints that carry an etype name the requested etype (theorem hypothesis hints_simple)'],
+  'partial': 'nfold_impl_spec not proved; large iteration counts sampled',
+ },
  'C14': {
   'level': 'Theorems (coq/props/C14.v): the parser reads every file of the MIT keytab grammar (both versions, holes, optional 32-bit kvno) to exactly the entries written; Unmarshal(Marshal kt) = kt for every representable keytab; key look-up is sound, complete and prefers the newest entry; the parser is total. The model is tied to the code by running the extracted model and the implementation on the same generated files, keytabs and look-ups on every run.',
   'note': 'Trusted: Coq kernel, extraction (ExtrOcamlBasic), the harness and its independent keytab writer; the model is hand-written and validated by the correspondence stream, not generated. Version 1 byte order is little-endian as on this platform.',
